@@ -27,7 +27,7 @@ func genC16(rt *rapid.T) *C16Spec {
 		c.Hook = genHookScript(rt, vc)
 	}
 	oc := &opConfig{ioSide: true, prints: true, maxTok: 3}
-	s := &C16Spec{Case: c, Writer: rapid.IntRange(0, 3).Draw(rt, "writer")}
+	s := &C16Spec{Case: c, Writer: rapid.IntRange(0, 3).Draw(rt, "writer"), Rich: rapid.Bool().Draw(rt, "richwriter")}
 	s.Prefix = genHistory(rt, oc, 5)
 	s.Suffix = genHistory(rt, oc, 4)
 	return s
